@@ -199,7 +199,11 @@ def judge_evidence(r, where, viol, counters):
     ratios = [e for e in ev if e[0] == "ratio"]
     counters["ratio_events"] += len(ratios)
     n_loop_iters = T - getattr(r, "resumed_from_iteration", 0)
-    if len(ratios) != n_loop_iters:
+    if not ratios and n_loop_iters > 0:
+        # the library did not go through SMCSamples.log_evidence_ratio at all (e.g. the computation was inlined): the
+        # order of events cannot be observed through this hook; the recomputation above does not depend on it
+        counters["ratio_hook_not_reached"] += 1
+    elif len(ratios) != n_loop_iters:
         viol.append({"mech": "C08/ratio-evaluated-wrong-number-of-times", "detail": f"{where}: {len(ratios)} ratio evaluations for {n_loop_iters} iterations run in this process"})
     for e in ratios:
         pid, b_to = e[1], e[3]
